@@ -53,7 +53,7 @@ fn rep(s: &str, n: usize) -> String {
     s.repeat(n)
 }
 
-pub const FAMILIES: [Family; 22] = [
+pub const FAMILIES: [Family; 25] = [
     ("nested parentheses", |n| format!("{}1{}", rep("(", n), rep(")", n))),
     ("nested pi domains", |n| {
         let mut s = String::new();
@@ -134,6 +134,32 @@ pub const FAMILIES: [Family; 22] = [
         for i in (0..n).rev() {
             s.push_str(&format!("; x{i})"));
         }
+        s
+    }),
+    ("functions sharing earlier functions (fib-shaped calls), used by a non-value definition", |n| {
+        let mut s = String::from("f0 = (x : int) => x + 1\nf1 = (x : int) => f0 x\n");
+        for i in 2..n.max(2) {
+            s.push_str(&format!("f{i} = (x : int) => f{} (f{} x)\n", i - 1, i - 2));
+        }
+        s.push_str(&format!("r = f{} 0\nr", n.max(2) - 1));
+        s
+    }),
+    ("non-value definitions each mentioning the two before", |n| {
+        let mut s = String::from("x0 = 1 + 1\nx1 = x0 + 1\n");
+        for i in 2..n.max(2) {
+            s.push_str(&format!("x{i} = x{} + x{}\n", i - 1, i - 2));
+        }
+        s.push_str(&format!("x{}", n.max(2) - 1));
+        s
+    }),
+    ("functions each mentioning all later functions, used by a first non-value definition", |n| {
+        let m = n.min(400);
+        let mut s = String::from("r = g0 1\n");
+        for i in 0..m {
+            let later: Vec<String> = (i + 1..m.min(i + 4)).map(|j| format!("g{j} y")).collect();
+            s.push_str(&format!("g{i} = (y : int) => y{}\n", later.iter().map(|l| format!(" + {l}")).collect::<String>()));
+        }
+        s.push('r');
         s
     }),
     ("one long literal", |n| rep("7", n * 8)),
@@ -275,7 +301,7 @@ pub fn def(tier: Tier) -> CheckDef {
     CheckDef {
         id: "C17",
         level: "exploration",
-        rule: "22 input families parameterised by n (nested parentheses, binder-looking prefixes, operator / application / arrow / negation chains, nested lambdas of three kinds, nested conditionals in each position, definition sequences, nested groups, long tokens) x 5 variants (well-formed, second half dropped, closing brackets dropped, operator doubled, stray closing bracket), n doubling from 6 to 1536 (quick) / 6144 (thorough), plus proptest-generated random compositions with the same damages; oracle = the number of parsing-function calls (hook counter in cache_check!, hit or miss) stays below 250 per token and the per-token rate does not rise by more than 1.3x on two successive doublings for n >= 100; CPU time growing more than 12x on two successive doublings is also a violation; a hang is caught by the watchdog and attributed to the announced (family, variant, n); non-trivial = a (family, variant, n) triple with n >= 100 or a random composition of >= 100 tokens; distinct by label / text",
+        rule: "25 input families parameterised by n (nested parentheses, binder-looking prefixes, operator / application / arrow / negation chains, nested lambdas of three kinds, nested conditionals in each position, definition sequences, definitions sharing dependencies (the definition-order check walks them), nested groups, long tokens) x 5 variants (well-formed, second half dropped, closing brackets dropped, operator doubled, stray closing bracket), n doubling from 6 to 1536 (quick) / 6144 (thorough), plus proptest-generated random compositions with the same damages; oracle = the number of parsing-function calls (hook counter in cache_check!, hit or miss) stays below 250 per token and the per-token rate does not rise by more than 1.3x on two successive doublings for n >= 100; CPU time growing more than 12x on two successive doublings is also a violation; a hang is caught by the watchdog and attributed to the announced (family, variant, n); non-trivial = a (family, variant, n) triple with n >= 100 or a random composition of >= 100 tokens; distinct by label / text",
         assumptions: vec![
             "work is measured by the hook counter (deterministic), CPU time only as a coarse second gate",
             "the constant 250 calls per token was calibrated on the pinned tree as about 4x the largest observed ratio",
